@@ -1,7 +1,7 @@
 from typing import Optional, Any, TypeVar, Type, BinaryIO
 from types import GeneratorType
 from remerkleable.tree import Node, RootNode, Root, subtree_fill_to_contents, get_depth, to_gindex, \
-    subtree_fill_to_length, Gindex, PairNode
+    subtree_fill_to_length, Gindex, PairNode, RIGHT_GINDEX
 from remerkleable.core import View, ViewHook, zero_node, FixedByteLengthViewHelper, pack_bytes_to_chunks, ObjType, \
     ObjParseException
 from remerkleable.basic import byte, uint256
@@ -234,12 +234,16 @@ class ByteList(RawBytesView, FixedByteLengthViewHelper, View):
 
     @classmethod
     def navigate_type(cls, key: Any) -> Type[View]:
+        if key == '__len__':
+            return uint256
         if key < 0 or key >= cls.limit():
             raise KeyError
         return byte
 
     @classmethod
     def key_to_static_gindex(cls, key: Any) -> Gindex:
+        if key == '__len__':
+            return RIGHT_GINDEX
         depth = cls.tree_depth()
         byte_limit = cls.limit()
         if key < 0 or key >= byte_limit:
